@@ -105,26 +105,26 @@ def BinSt.init : BinSt := ⟨.idle, false, Env.dflt, none, none, false, none, fa
 
 inductive Op
   | const (k : ConstKind) (ph : Phase)
-  | leaf (i : Nat) (ph : Phase)
+  | leaf (i : Nat) (ph : Phase) (nt : Bool)   -- nt: (ghost) the leaf has received a stop notification
   | un (k : UnKind) (c : Op) (ph : Phase) (env : Env)
   | bin (k : BinKind) (a b : Op) (st : BinSt)
   deriving DecidableEq, Repr
 
 def connect : Expr → Op
   | .const k => .const k .idle
-  | .leaf i => .leaf i .idle
+  | .leaf i => .leaf i .idle false
   | .un k c => .un k (connect c) .idle Env.dflt
   | .bin k a b => .bin k (connect a) (connect b) BinSt.init
 
 def Op.phase : Op → Phase
   | .const _ ph => ph
-  | .leaf _ ph => ph
+  | .leaf _ ph _ => ph
   | .un _ _ ph _ => ph
   | .bin _ _ _ st => st.ph
 
 def Op.height : Op → Nat
   | .const _ _ => 0
-  | .leaf _ _ => 0
+  | .leaf _ _ _ => 0
   | .un _ c _ _ => c.height + 1
   | .bin _ a b _ => max a.height b.height + 1
 
@@ -159,7 +159,8 @@ def UnKind.forwardsStop : UnKind → Bool
   | .unstoppable => false
   | _ => true
 
-def Env.stop (env : Env) : Env := if env.stoppable then { env with stopped := true } else env
+/-- a node only receives a stop event when its token can be stopped, so no guard is needed -/
+def Env.stop (env : Env) : Env := { env with stopped := true }
 
 /-- when_all's result once both children have completed (deliver_result) -/
 def whenAllResult (rcvStopped : Bool) (st : BinSt) : Outcome :=
@@ -202,25 +203,25 @@ def constStep (ev : Ev) (k : ConstKind) (ph : Phase) : Res :=
   | .idle, .start env => (.const k .finished, [], some (k.outcome env))
   | _, _ => (.const k ph, [], none)
 
-def leafStep (ev : Ev) (i : Nat) (ph : Phase) : Res :=
+def leafStep (ev : Ev) (i : Nat) (ph : Phase) (nt : Bool) : Res :=
   match ph, ev with
   | .idle, .start env =>
     match specs i with
-    | .inline o => (.leaf i .finished, [.leafStart i env.stopped env.tag], some o)
+    | .inline o => (.leaf i .finished nt, [.leafStart i env.stopped env.tag], some o)
     | .pending r =>
       if env.stopped then
         -- the stop callback runs inline during registration
         match r with
-        | .completeDone => (.leaf i .finished, [.leafStart i true env.tag, .leafStop i], some .done)
-        | .ignore => (.leaf i .running, [.leafStart i true env.tag, .leafStop i], none)
-      else (.leaf i .running, [.leafStart i false env.tag], none)
+        | .completeDone => (.leaf i .finished true, [.leafStart i true env.tag, .leafStop i], some .done)
+        | .ignore => (.leaf i .running true, [.leafStart i true env.tag, .leafStop i], none)
+      else (.leaf i .running nt, [.leafStart i false env.tag], none)
   | .running, .stop =>
     match specs i with
-    | .pending .completeDone => (.leaf i .finished, [.leafStop i], some .done)
-    | _ => (.leaf i .running, [.leafStop i], none)
+    | .pending .completeDone => (.leaf i .finished true, [.leafStop i], some .done)
+    | _ => (.leaf i .running true, [.leafStop i], none)
   | .running, .complete j o =>
-    if i = j then (.leaf i .finished, [], some o) else (.leaf i ph, [], none)
-  | _, _ => (.leaf i ph, [], none)
+    if i = j then (.leaf i .finished nt, [], some o) else (.leaf i ph nt, [], none)
+  | _, _ => (.leaf i ph nt, [], none)
 
 /-- wrap a child's result into the unary node -/
 def unWrap (k : UnKind) (env : Env) (r : Res) : Res :=
@@ -254,19 +255,34 @@ def waRec (st : BinSt) (isA : Bool) (r : Option Outcome) : BinSt × Bool :=
 
 def markSrc (st : BinSt) (b : Bool) : BinSt := if b then { st with src := true } else st
 
+/-- Child `isA` has just produced the signal `r` (its updated tree is already in place): record a
+    completion (element_receiver::set_*) and, if it is the first failure, request stop on the
+    when_all's own source, i.e. notify the sibling if that is still running. -/
+def waAfterChild (rec : Rec) (isA : Bool) (a b : Op) (st : BinSt) (r : Option Outcome) :
+    Op × Op × BinSt × List Out :=
+  match r with
+  | none => (a, b, st, [])
+  | some o =>
+    let p := waRecord st isA o
+    let st1 := markSrc p.1 p.2
+    if isA then
+      let rb := recIf rec (p.2 && st1.rb.isNone) .stop b
+      (a, rb.1, (waRec st1 false rb.2.2).1, rb.2.1)
+    else
+      let ra := recIf rec (p.2 && st1.ra.isNone) .stop a
+      (ra.1, b, (waRec st1 true ra.2.2).1, ra.2.1)
+
 def waStart (rec : Rec) (a b : Op) (st : BinSt) (env0 : Env) : Res :=
   -- stopCallback_ registered first: runs inline if stop was already requested
-  let st0 : BinSt := { st with ph := .running, env := env0, src := env0.stopped }
+  let st0 : BinSt := { BinSt.init with ph := .running, env := env0, src := env0.stopped, second := st.second }
   let ra := rec (.start { env0 with stopped := st0.src, stoppable := true }) a
-  let st1 := (waRec st0 true ra.2.2).1
-  let st1 := markSrc st1 st1.doe
+  -- b is not started yet: a failing a only marks the source as stopped
+  let p1 := waRec st0 true ra.2.2
+  let st1 := markSrc p1.1 p1.2
   let rb := rec (.start { env0 with stopped := st1.src, stoppable := true }) b
-  let p2 := waRec st1 false rb.2.2
-  let st2 := markSrc p2.1 p2.1.doe
   -- b's failure stops a (if a is still running and the source was not yet stopped)
-  let ra2 := recIf rec (p2.2 && st2.ra.isNone) .stop ra.1
-  let st3 := (waRec st2 true ra2.2.2).1
-  waFinish ra2.1 rb.1 st3 (ra.2.1 ++ rb.2.1 ++ ra2.2.1)
+  let x := waAfterChild rec false ra.1 rb.1 st1 rb.2.2
+  waFinish x.1 x.2.1 x.2.2.1 (ra.2.1 ++ rb.2.1 ++ x.2.2.2)
 
 def waStop (rec : Rec) (a b : Op) (st : BinSt) : Res :=
   let st0 := { st with env := st.env.stop }
@@ -282,16 +298,10 @@ def waStop (rec : Rec) (a b : Op) (st : BinSt) : Res :=
 def waComplete (rec : Rec) (a b : Op) (st : BinSt) (i : Nat) (o : Outcome) : Res :=
   -- the leaf lives in exactly one of the two subtrees; a finished/idle subtree ignores the event
   let ra := rec (.complete i o) a
-  let p1 := waRec st true ra.2.2
-  let st1 := markSrc p1.1 p1.2
-  let rb1 := recIf rec (p1.2 && st1.rb.isNone) .stop b
-  let st2 := (waRec st1 false rb1.2.2).1
-  let rb := recIf rec ra.2.2.isNone (.complete i o) rb1.1
-  let p3 := waRec st2 false rb.2.2
-  let st3 := markSrc p3.1 p3.2
-  let ra2 := recIf rec (p3.2 && st3.ra.isNone) .stop ra.1
-  let st4 := (waRec st3 true ra2.2.2).1
-  waFinish ra2.1 rb.1 st4 (ra.2.1 ++ rb1.2.1 ++ rb.2.1 ++ ra2.2.1)
+  let x := waAfterChild rec true ra.1 b st ra.2.2
+  let rb := recIf rec ra.2.2.isNone (.complete i o) x.2.1
+  let y := waAfterChild rec false x.1 rb.1 x.2.2.1 rb.2.2
+  waFinish y.1 y.2.1 y.2.2.1 (ra.2.1 ++ x.2.2.2 ++ rb.2.1 ++ y.2.2.2)
 
 def waStep (rec : Rec) (ev : Ev) (a b : Op) (st : BinSt) : Res :=
   match st.ph, ev with
@@ -311,16 +321,32 @@ def setRa (st : BinSt) (r : Option Outcome) : BinSt :=
 def setRb (st : BinSt) (r : Option Outcome) : BinSt :=
   match r with | some o => { st with rb := some o } | none => st
 
+/-- Child `isA` (source or trigger) has just produced the signal `r`: record it and request stop on
+    the stop_when's own source, i.e. notify the other child if that is still running
+    (notify_source_complete / notify_trigger_complete). -/
+def swAfterChild (rec : Rec) (isA : Bool) (a b : Op) (st : BinSt) (r : Option Outcome) :
+    Op × Op × BinSt × List Out :=
+  match r with
+  | none => (a, b, st, [])
+  | some o =>
+    let st1 : BinSt := if isA then { st with ra := some o } else { st with rb := some o }
+    let need := !st1.src
+    let st2 : BinSt := { st1 with src := true }
+    if isA then
+      let rb := recIf rec (need && st2.rb.isNone) .stop b
+      (a, rb.1, setRb st2 rb.2.2, rb.2.1)
+    else
+      let ra := recIf rec (need && st2.ra.isNone) .stop a
+      (ra.1, b, setRa st2 ra.2.2, ra.2.1)
+
 def swStart (rec : Rec) (a b : Op) (st : BinSt) (env0 : Env) : Res :=
-  let st0 : BinSt := { st with ph := .running, env := env0, src := env0.stopped }
+  let st0 : BinSt := { BinSt.init with ph := .running, env := env0, src := env0.stopped, second := st.second }
   let ra := rec (.start { env0 with stopped := st0.src, stoppable := true }) a
+  -- the trigger is not started yet: a source that completes inline only marks the source stopped
   let st1 := markSrc (setRa st0 ra.2.2) ra.2.2.isSome
   let rb := rec (.start { env0 with stopped := st1.src, stoppable := true }) b
-  let st2 := setRb st1 rb.2.2
-  -- trigger completion stops the source
-  let ra2 := recIf rec (rb.2.2.isSome && st2.ra.isNone && !st2.src) .stop ra.1
-  let st3 := markSrc (setRa st2 ra2.2.2) rb.2.2.isSome
-  swFinish ra2.1 rb.1 st3 (ra.2.1 ++ rb.2.1 ++ ra2.2.1)
+  let x := swAfterChild rec false ra.1 rb.1 st1 rb.2.2
+  swFinish x.1 x.2.1 x.2.2.1 (ra.2.1 ++ rb.2.1 ++ x.2.2.2)
 
 def swStop (rec : Rec) (a b : Op) (st : BinSt) : Res :=
   let st0 := { st with env := st.env.stop }
@@ -335,17 +361,10 @@ def swStop (rec : Rec) (a b : Op) (st : BinSt) : Res :=
 
 def swComplete (rec : Rec) (a b : Op) (st : BinSt) (i : Nat) (o : Outcome) : Res :=
   let ra := rec (.complete i o) a
-  let st1 := setRa st ra.2.2
-  -- source completed: stop the trigger
-  let rb1 := recIf rec (ra.2.2.isSome && !st1.src && st1.rb.isNone) .stop b
-  let st1 := markSrc st1 ra.2.2.isSome
-  let st2 := setRb st1 rb1.2.2
-  let rb := recIf rec ra.2.2.isNone (.complete i o) rb1.1
-  let st3 := setRb st2 rb.2.2
-  let ra2 := recIf rec (rb.2.2.isSome && !st3.src && st3.ra.isNone) .stop ra.1
-  let st3 := markSrc st3 rb.2.2.isSome
-  let st4 := setRa st3 ra2.2.2
-  swFinish ra2.1 rb.1 st4 (ra.2.1 ++ rb1.2.1 ++ rb.2.1 ++ ra2.2.1)
+  let x := swAfterChild rec true ra.1 b st ra.2.2
+  let rb := recIf rec ra.2.2.isNone (.complete i o) x.2.1
+  let y := swAfterChild rec false x.1 rb.1 x.2.2.1 rb.2.2
+  swFinish y.1 y.2.1 y.2.2.1 (ra.2.1 ++ x.2.2.2 ++ rb.2.1 ++ y.2.2.2)
 
 def swStep (rec : Rec) (ev : Ev) (a b : Op) (st : BinSt) : Res :=
   match st.ph, ev with
@@ -380,7 +399,7 @@ def BinKind.finish (k : BinKind) (saved : Option Outcome) (ob : Outcome) : Outco
 /-- the first operation has just produced `ra` (under the current environment `env`) -/
 def seqAfterFirst (rec : Rec) (k : BinKind) (b : Op) (st : BinSt) (env : Env) (ra : Res) : Res :=
   match ra.2.2 with
-  | none => (.bin k ra.1 b { st with ph := .running, env := env }, ra.2.1, none)
+  | none => (.bin k ra.1 b { st with ph := .running, second := false, env := env }, ra.2.1, none)
   | some o =>
     if k.takes o then
       let rb := rec (.start (k.succEnv env o)) b
@@ -416,11 +435,12 @@ def binStep (rec : Rec) (ev : Ev) (k : BinKind) (a b : Op) (st : BinSt) : Res :=
 /-- ONE external event, processed to quiescence.  The recursion is on `fuel` (not on the tree)
     because a cascade re-enters UPDATED subtrees (a failing when_all child stops its already
     started sibling); `fuel > height` always suffices (`Op.height`), and running out of fuel is the
-    distinct observation `Out.fuelOut`, never silence. -/
+    distinct observation `Out.fuelOut`, never silence (the subtree is then abandoned: replaced by a
+    finished node, so that the structural invariants are stated without side conditions on fuel). -/
 def deliver : Nat → Ev → Op → Res
-  | 0, _, op => (op, [.fuelOut], none)
+  | 0, _, op => (if op.phase = .finished then op else .const .justDone .finished, [.fuelOut], none)
   | _+1, ev, .const k ph => constStep ev k ph
-  | _+1, ev, .leaf i ph => leafStep specs ev i ph
+  | _+1, ev, .leaf i ph nt => leafStep specs ev i ph nt
   | fuel+1, ev, .un k c ph env => unStep (deliver fuel) ev k c ph env
   | fuel+1, ev, .bin k a b st => binStep (deliver fuel) ev k a b st
 
